@@ -22,6 +22,7 @@ import (
 	"testing"
 	"time"
 
+	"github.com/cloudwego/eino/callbacks"
 	"github.com/cloudwego/eino/components/tool"
 	toolutils "github.com/cloudwego/eino/components/tool/utils"
 	"github.com/cloudwego/eino/schema"
@@ -51,6 +52,9 @@ type vtCase struct {
 	Term    string   `json:"term"`  // outcome of the model (statistics only, never compared here)
 	Wrap    bool     `json:"wrap"`  // invokable-only / streamable-only tools are built with components/tool/utils (NewTool / NewStreamTool)
 	OptList bool     `json:"optlist"` // the tools are given per call (WithToolList); the node is configured with another decoy only
+	Shape   string   `json:"shape"`   // graph cases: "" tools -> END | "branch" non-stream branch condition + invokable successor |
+	// "fanout" two invokable successors | "callback" a callback handler on the tools node + an invokable successor: in the stream
+	// form the node's output is then concatenated by two consumers that share the frames
 	Deep    bool     `json:"deep"`    // panicking tools panic from a deep recursion (long unwinding widens the window after the panic)
 	JSONArg bool     `json:"jsonargs"` // arguments are JSON objects {"v":..,"o":..} ("o" omitted in some calls); with wrap, the tools are built
 	// by components/tool/utils with the DEFAULT unmarshalling into a pointer-to-struct (ta, tc) or map (tb) input
@@ -345,7 +349,7 @@ func (r *vtRun) control(done chan struct{}) {
 		case <-time.After(vtStepTimeout):
 			return
 		}
-		if r.c.Mode == "stream" && step > 1 {
+		if r.c.Mode == "stream" && step > 1 && r.c.Shape == "" { // (with a consumer node behind the tools node the caller gets one frame at the end)
 			ok := vtSpinUntil(func() bool {
 				return atomic.LoadInt32(&r.consumed[i]) > before || atomic.LoadInt32(&r.termSeen) != 0
 			}, 400*time.Millisecond)
@@ -523,7 +527,7 @@ func vtRunCaseBody(r *vtRun) []string {
 	if sched == nil {
 		sched = []int{}
 	}
-	r.emit("case", "id", c.ID, "mode", c.Mode, "graph", c.Graph, "handler", c.Handler, "calls", calls, "tools", tools, "sched", sched, "wrap", c.Wrap, "optlist", c.OptList, "deep", c.Deep, "jsonargs", c.JSONArg)
+	r.emit("case", "id", c.ID, "mode", c.Mode, "graph", c.Graph, "handler", c.Handler, "calls", calls, "tools", tools, "sched", sched, "wrap", c.Wrap, "optlist", c.OptList, "deep", c.Deep, "jsonargs", c.JSONArg, "shape", c.Shape)
 
 	ctx := context.Background()
 	bts := make([]tool.BaseTool, 0, len(c.Tools))
@@ -592,10 +596,93 @@ func vtRunCaseBody(r *vtRun) []string {
 	var stream func(*schema.Message) (*schema.StreamReader[[]*schema.Message], error)
 	if c.Graph {
 		g := NewGraph[*schema.Message, []*schema.Message]()
-		if err = g.AddToolsNode("tools", tn); err == nil {
-			if err = g.AddEdge(START, "tools"); err == nil {
-				err = g.AddEdge("tools", END)
+		// a consumer of the node's output: it records the list it got (in the stream form the engine concatenates the frames for it)
+		see := func(who string) *Lambda {
+			return InvokableLambda(func(_ context.Context, in []*schema.Message) ([]*schema.Message, error) {
+				r.emit("seen", "who", who, "out", vtMsgList(in))
+				return in, nil
+			})
+		}
+		var runOpts []Option
+		err = g.AddToolsNode("tools", tn)
+		if err == nil {
+			err = g.AddEdge(START, "tools")
+		}
+		switch {
+		case err != nil:
+		case c.Shape == "branch":
+			err = g.AddLambdaNode("collect", see("succ"))
+			if err == nil {
+				err = g.AddLambdaNode("drop", see("drop"))
 			}
+			if err == nil {
+				err = g.AddBranch("tools", NewGraphBranch(func(_ context.Context, in []*schema.Message) (string, error) {
+					r.emit("seen", "who", "branch", "out", vtMsgList(in))
+					return "collect", nil
+				}, map[string]bool{"collect": true, "drop": true}))
+			}
+			if err == nil {
+				err = g.AddEdge("collect", END)
+			}
+			if err == nil {
+				err = g.AddEdge("drop", END)
+			}
+		case c.Shape == "fanout":
+			err = g.AddLambdaNode("a", see("a"), WithOutputKey("a"))
+			if err == nil {
+				err = g.AddLambdaNode("b", see("b"), WithOutputKey("b"))
+			}
+			if err == nil {
+				err = g.AddLambdaNode("join", InvokableLambda(func(_ context.Context, in map[string]any) ([]*schema.Message, error) {
+					out, _ := in["a"].([]*schema.Message)
+					return out, nil
+				}))
+			}
+			for _, e := range [][2]string{{"tools", "a"}, {"tools", "b"}, {"a", "join"}, {"b", "join"}, {"join", END}} {
+				if err == nil {
+					err = g.AddEdge(e[0], e[1])
+				}
+			}
+		case c.Shape == "callback":
+			err = g.AddLambdaNode("succ", see("succ"))
+			if err == nil {
+				err = g.AddEdge("tools", "succ")
+			}
+			if err == nil {
+				err = g.AddEdge("succ", END)
+			}
+			cb := callbacks.NewHandlerBuilder().OnEndWithStreamOutputFn(func(ctx context.Context, _ *callbacks.RunInfo,
+				out *schema.StreamReader[callbacks.CallbackOutput]) context.Context {
+				atomic.AddInt32(&r.active, 1)
+				go func() {
+					defer atomic.AddInt32(&r.active, -1)
+					defer out.Close()
+					var frames [][]*schema.Message
+					for {
+						v, err := out.Recv()
+						if err == io.EOF {
+							break
+						}
+						if err != nil {
+							return
+						}
+						if ms, ok := v.([]*schema.Message); ok {
+							frames = append(frames, ms)
+						}
+					}
+					if len(frames) == 0 {
+						return
+					}
+					defer func() { _ = recover() }()
+					if whole, err := concatStreamReader(schema.StreamReaderFromArray(frames)); err == nil {
+						r.emit("seen", "who", "callback", "out", vtMsgList(whole))
+					}
+				}()
+				return ctx
+			}).Build()
+			runOpts = append(runOpts, WithCallbacks(cb).DesignateNode("tools"))
+		default:
+			err = g.AddEdge("tools", END)
 		}
 		var run Runnable[*schema.Message, []*schema.Message]
 		if err == nil {
@@ -605,10 +692,11 @@ func vtRunCaseBody(r *vtRun) []string {
 			r.emit("note", "text", "graph: "+err.Error())
 			return finish("setup")
 		}
-		invoke = func(m *schema.Message) ([]*schema.Message, error) { return run.Invoke(ctx, m, WithToolsNodeOption(tnOpts...)) }
-		plainInvoke = func(m *schema.Message) ([]*schema.Message, error) { return run.Invoke(ctx, m) }
+		withOpts := append([]Option{WithToolsNodeOption(tnOpts...)}, runOpts...)
+		invoke = func(m *schema.Message) ([]*schema.Message, error) { return run.Invoke(ctx, m, withOpts...) }
+		plainInvoke = func(m *schema.Message) ([]*schema.Message, error) { return run.Invoke(ctx, m, runOpts...) }
 		stream = func(m *schema.Message) (*schema.StreamReader[[]*schema.Message], error) {
-			return run.Stream(ctx, m, WithToolsNodeOption(tnOpts...))
+			return run.Stream(ctx, m, withOpts...)
 		}
 	} else {
 		invoke = func(m *schema.Message) ([]*schema.Message, error) { return tn.Invoke(ctx, m, tnOpts...) }
